@@ -225,6 +225,10 @@ func (kt *Keytab) Unmarshal(b []byte) error {
 	}
 	// n tracks position in the byte array
 	n := 2
+	if len(b[n:]) < 4 {
+		// A keytab without entries, which is also what Marshal writes for an empty Keytab.
+		return nil
+	}
 	l, err := readInt32(b, &n, &endian)
 	if err != nil {
 		return err
